@@ -77,7 +77,7 @@ def pinned(**kw):
     ok = True
     for name, value in kw.items():
         if name in PIN:
-            ok = ok and (value == PIN[name])
+            ok = ok & (value == PIN[name])      # & (not `and`): one solver term, no forking
     return ok
 
 
@@ -332,6 +332,15 @@ def configure_crosshair():
             Z3STATS["seconds"] += time.perf_counter() - t0
 
     ss.solver_is_sat = solver_is_sat
+
+    # 3. no sub-contract enforcement: CrossHair's EnforcedConditions tracer inspects EVERY call made by traced
+    #    code for a PEP316 contract on the callee (and routes every instantiation through manual_constructor).
+    #    The only contract in an analysis is the harness function's own, which attempt_call checks itself;
+    #    pyformlang, networkx and the oracles carry none. Measured (C17): 0.336 s -> 0.011 s of library time
+    #    per path, same paths, same verdicts.
+    if not os.environ.get("VF_KEEP_ENFORCE"):
+        from crosshair import enforce as _enforce
+        _enforce.EnforcedConditions.trace_call = lambda self, frame, fn, binding_target: None
 
 
 _WARM = False
